@@ -52,6 +52,15 @@ def run(pid, tier):
             s = b"".join(t); cases.append(s); cases.append(b"@()" + s)
     for t in itertools.product(CORE, repeat=L + 1):
         if rng.random() < (0.05 if tier == "quick" else 0.25): cases.append(b"@()" + b"".join(t))
+    # the declaration: lifetime lists, argument lists and @use lines over their own token alphabet (every string to length 5 / 6)
+    DECL_TOK = [b"@", b"<", b">", b"(", b")", b"'a", b"'b", b",", b" ", b":", b"T", b"x", b"&'a str", b"\n", b"use a::b;", b"'a,", b"u8"]
+    LD = 4 if tier == "quick" else 5
+    for l in range(0, LD + 1):
+        for t in itertools.product(DECL_TOK, repeat=l):
+            if l >= 4 and rng.random() > (0.12 if tier == "quick" else 0.2): continue
+            cases.append(b"@<'a" + b"".join(t)); 
+            if l <= 3: cases.append(b"@(" + b"".join(t)); cases.append(b"".join(t) + b"@()x")
+    cases += [b"@<'a(x: &'a str)", b"@<'a, T>(x: T)", b"@<'a, 'b: 'a>()", b"@<'a,>()", b"@<>()", b"@<'a>(x: &'a str)\n@x", b"@<'a b>()", b"@<'a\n>()", b"@< 'a, 'b >(x: &'a str)"]
     # examples: splices and mutations
     ex = [open(f, "rb").read() for f in sorted(glob.glob(os.path.join(REPO, "examples", "**", "*.rs.*"), recursive=True))]
     cases += ex
